@@ -215,6 +215,8 @@ fn gen_positions(rng: &mut Rng, k: &Knobs, count: usize) -> Vec<f32> {
     while out.len() < count && guard < 200 {
         guard += 1;
         let p = match rng.below(6) {
+            // (rarely a hair above 0%: closer to 0 than f32::EPSILON, yet a distinct position)
+            0 if rng.chance(0.04) => *rng.pick(&[1.0e-9f32, f32::MIN_POSITIVE, 1.0e-7, 5.0e-8]),
             0 => 0.0,
             1 => 1.0,
             2 | 3 => rng.range(1, 7) as f32 / 8.0,
@@ -246,6 +248,9 @@ pub fn gen_timeline(rng: &mut Rng, k: &Knobs) -> TlSpec {
         Some(rng.range(17, 70) as usize)
     } else if rng.chance(0.0015) {
         Some(rng.range(258, 420) as usize)
+    } else if rng.chance(0.00002) {
+        // a baked curve: more frames for one property than fit in 16 bits
+        Some(rng.range(65_600, 70_000) as usize)
     } else {
         None
     };
